@@ -202,8 +202,9 @@ def verus_witness(unit, repo, scratch):
         return {'witness': None, 'witness_search': 'native sweep timed out (the operator may not terminate on some input)'}
     rows = 0
     for line in p.stdout.split('\n'):
-        if not line.startswith('ROW|'):
+        if 'ROW|' not in line:
             continue
+        line = line[line.index('ROW|'):]      # the first row shares its line with the harness' `test sweep ... `
         _, ps, xs, end, got = line.split('|', 4)
         xs = json.loads(xs)
         endc = 'CES'[int(end)]
